@@ -288,6 +288,24 @@ def gen_instance(rng, *, d=None, k=None, N=None, vtype="sympy", fdkind=None,
             inst["fdkind"], inst["fd_blocks"], inst["masks"] = "none", [], {}
         if not well_posed(inst):
             raise Regenerate("corner instance ill posed")
+    if corner == "degenerate_fd":
+        # corner stratum: a fully diagonalised block holding a degenerate level whose states are
+        # NOT adjacent in the basis ordering (energies x, y, x)
+        big = [b for b in range(nb) if sizes[b] >= 3]
+        if not big:
+            raise Regenerate("no block of size 3")
+        b = big[0]
+        st = [i for i in range(d) if sub_idx[i] == b]
+        own = sorted({inst["E"][i] for i in st}, key=str)
+        if len(own) < 2:
+            raise Regenerate("block has a single level")
+        E2 = list(inst["E"])
+        E2[st[0]], E2[st[1]], E2[st[2]] = own[0], own[1], own[0]
+        inst["E"] = E2
+        inst["fdkind"], inst["fd_blocks"], inst["masks"] = "tuple", sorted({b, *(
+            inst["fd_blocks"] if inst["fdkind"] == "tuple" else [])}), {}
+        if not well_posed(inst):
+            raise Regenerate("corner instance ill posed")
     inst["basis"] = None
     if basis == "pairs":
         M, Mi = unimodular_pair(rng, d, complex_)
